@@ -16,6 +16,7 @@ import (
 
 var ZZEntries = map[string]func([]int){
 	"HJDuration": func(a []int) { HJDuration(a[0], a[1]) },
+	"HJIPv6":     func(a []int) { HJIPv6(a[0]) },
 	"HJInt8":   func(a []int) { HJInt8() },
 	"HJUint8":  func(a []int) { HJUint8() },
 	"HJInt16":  func(a []int) { HJInt16() },
@@ -324,4 +325,58 @@ func HJDuration(cls, neg int) {
 	got := string(e.Bytes())
 	zz.Cover("duration-encoded")
 	zz.Assert(len(got) == len(want)+2 && got[0] == '"' && got[len(got)-1] == '"' && zz.EqString(got[1:len(got)-1], want), "EncodeDuration writes the text of time.Duration.String for every duration")
+}
+
+
+// HJIPv6: IPv6 addresses of a few shapes with symbolic groups: 0: IPv4-mapped ::ffff:a.b.c.d (four symbolic
+// bytes), 1: 2001:db8::X:Y (two symbolic groups at the end), 2: X:0:0:0:0:0:0:Y, 3: 0:0:X:0:0:Y:0:0,
+// 4: fe80::X (one symbolic group), 5: ::X:Y (IPv4-compatible look-alike). The text form (zero-run
+// compression, embedded dotted quad) must parse back to the same address and keep its version.
+func HJIPv6(kind int) {
+	var a [16]byte
+	sym := func(i int) {
+		a[i] = zz.Byte()
+	}
+	switch kind {
+	case 0:
+		a[10], a[11] = 0xff, 0xff
+		sym(12)
+		sym(13)
+		sym(14)
+		sym(15)
+	case 1:
+		a[0], a[1], a[2], a[3] = 0x20, 0x01, 0x0d, 0xb8
+		sym(12)
+		sym(13)
+		sym(14)
+		sym(15)
+	case 2:
+		sym(0)
+		sym(1)
+		sym(14)
+		sym(15)
+	case 3:
+		sym(4)
+		sym(5)
+		sym(10)
+		sym(11)
+	case 4:
+		a[0], a[1] = 0xfe, 0x80
+		sym(14)
+		sym(15)
+	default:
+		sym(12)
+		sym(13)
+		sym(14)
+		sym(15)
+	}
+	v := netip.AddrFrom16(a)
+	e := &jx.Encoder{}
+	EncodeIPv6(e, v)
+	b, err := DecodeIPv6(jx.DecodeBytes(e.Bytes()))
+	zz.Cover("ipv6-encoded")
+	zz.Assert(err == nil, "ipv6 JSON decodes (the encoder's own text is accepted as an IPv6 address)")
+	zz.Assert(b == v, "ipv6 JSON round-trips")
+	b2, err2 := DecodeIP(jx.DecodeBytes(e.Bytes()))
+	zz.Assert(zz.And(err2 == nil, b2 == v), "ip JSON round-trips (ipv6)")
 }
